@@ -136,6 +136,8 @@ def run(ctx):
                  'update_on_match', ctx.loc(dbf))
     from mstatic.rules import shared as _shc
     _shc.cas_primitive_reports_loss(ctx, r1)
+    _shc.facade_forwards_parameters(ctx, r1, names={
+        'update_workflow_execution_state', 'update_task_execution_state'})
     # attribute stores to .state
     n_stores = 0
     for q, f in sorted(prog.funcs.items()):
